@@ -101,4 +101,11 @@ CHECKS["C20"] = {"text": "Proved on the model: configuring from a successfully s
     "implementation (dyadic and non-dyadic unit pairs), not stated as a single theorem over runs.",
     "note": COMMON_NOTE + " PARTIAL as stated. Configuration outcomes are compared with the model by generated cases files (vm_compute).",
     "technique": "Coq proof (configuration arithmetic; least-n / ceiling characterisation with Qceiling; per-step progress) + oracle on parent runs + vm_compute correspondence of configure/set_rate"}
+CHECKS["C18"] = {"text": "Model/LogEdit.v mirrors remove_absence_time_list / insert_absence_time_list of the project and of every class below it. Proved for every configuration, every aligned "
+    "project state and ANY list of step indices (step 0, repeated elements, already listed steps, steps beyond the end): both editors keep every log of every object at one common length and set project.time to it, "
+    "also along any sequence of remove/insert calls; every log changes by the same number of entries; inserting into an absence-free result and removing again restores every log, project.time and the empty "
+    "absence list; an inserted entry has cost 0 / repeats the previous remaining work and allocation (initial value at step 0) and is not disturbed by later insertions. The model is tied to the code by the "
+    "correspondence on full dumps (all logs, time, absence list) after every operation of random edit sequences (20 000 sequences in the thorough tier). 'Without error' for the implementation is searched.",
+    "note": COMMON_NOTE + " An inserted 'no allocation' entry is None in the code and [] in the model (canonicalised before comparison). Sub-project tasks are covered by the oracle only.",
+    "technique": "Coq proof (list-edit algebra: cancellation, length function, record-wise guards) + model/implementation correspondence on edit sequences through the extracted driver"}
 NOT_APPLICABLE = {}
